@@ -523,7 +523,23 @@ def _recipe_requests():
             M_ = WS_ if iface == "wsgi" else AS_
             call_app(iface, M_.Pages(d), path="/sub", headers={"Host": "["})
 
-    return {"json-5000-digit-int": json_huge, "json-deeply-nested": json_deep, "json-charset-with-nul": json_charset_nul, "range-5000-digit-int": range_huge,
+    def urlenc(charset, body):
+        def run(iface):
+            req = preset_body(make_request(iface, {"content-type": "application/x-www-form-urlencoded; charset=" + charset}), body)
+            (_arun(req, "form") if iface == "asgi" else req.form).multi_items()
+        return run
+
+    def multipart_charset(charset):
+        def run(iface):
+            raw = b'--b\r\nContent-Disposition: form-data; name="a\xff"\r\n\r\nv\xff\r\n--b--\r\n'
+            req = make_request(iface, {"content-type": "multipart/form-data; boundary=b; charset=" + charset}, body=[raw])
+            (_arun(req, "form") if iface == "asgi" else req.form).multi_items()
+        return run
+
+    # codecs that exist but reject the text in their own way (plain UnicodeError / ValueError, not UnicodeDecodeError / LookupError)
+    special = {f"urlencoded-charset-{n}": urlenc(cs, b"a=\xff") for n, cs in (("undefined", "undefined"), ("nul", "a\x00b"), ("idna", "idna"), ("punycode", "punycode"))}
+    special.update({f"multipart-charset-{n}": multipart_charset(cs) for n, cs in (("undefined", "undefined"), ("punycode", "punycode"), ("idna", "idna"), ("nul", "a\x00b"))})
+    return {**special, "json-5000-digit-int": json_huge, "json-deeply-nested": json_deep, "json-charset-with-nul": json_charset_nul, "range-5000-digit-int": range_huge,
             "url-port-not-a-number": url_port, "files-segment-longer-than-name-max": files_long_segment, "pages-redirect-with-bad-host": pages_redirect_bad_host}
 
 
